@@ -295,15 +295,32 @@ impl Check for Interp {
         }
         o.metric(&format!("{}-value-defect/bound", if p.hermite { "hermite" } else { "lagrange" }), worst_v);
         o.metric(&format!("{}-coefficient-defect/bound", if p.hermite { "hermite" } else { "lagrange" }), worst_c);
-        // mismatched lengths
-        if p.n >= 2 {
-            let short = &ys[..p.n - 1];
-            let bad = if p.hermite { run_lib(true, complex, &xs, short, &ds, p.tol) } else { run_lib(false, complex, &xs, short, &ds, p.tol) };
-            if !matches!(bad, Ok(Err(_))) {
-                o.viol(subj, "mismatched-lengths-give-err", ctx(&format!("{:?}", bad.map(|r| r.map(|q| q.1)))));
+        // mismatched lengths: every slice shorter and longer than the others
+        {
+            let extra = C::new(0.25, 0.0);
+            let mut variants: Vec<(&str, Vec<C>, Vec<C>, Vec<C>)> = vec![];
+            let longer = |v: &Vec<C>| { let mut w = v.clone(); w.push(extra); w };
+            if p.n >= 2 {
+                variants.push(("ys shorter", xs.clone(), ys[..p.n - 1].to_vec(), ds.clone()));
+                variants.push(("xs shorter", xs[..p.n - 1].to_vec(), ys.clone(), ds.clone()));
             }
-            if p.hermite && !matches!(run_lib(true, complex, &xs, &ys, &ds[..p.n - 1], p.tol), Ok(Err(_))) {
-                o.viol(subj, "mismatched-lengths-give-err", ctx("derivative slice shorter"));
+            variants.push(("ys longer", xs.clone(), longer(&ys), ds.clone()));
+            variants.push(("xs longer", longer(&xs), ys.clone(), ds.clone()));
+            if p.hermite {
+                if p.n >= 2 {
+                    variants.push(("derivatives shorter", xs.clone(), ys.clone(), ds[..p.n - 1].to_vec()));
+                }
+                variants.push(("derivatives longer", xs.clone(), ys.clone(), longer(&ds)));
+            }
+            for (what, vx, vy, vd) in variants {
+                if p.hermite && what.starts_with("xs") {
+                    // keep ys and derivatives consistent with each other so that only xs differs
+                }
+                let bad = run_lib(p.hermite, complex, &vx, &vy, &vd, p.tol);
+                if !matches!(bad, Ok(Err(_))) {
+                    o.viol(subj, "mismatched-lengths-give-err", ctx(&format!("{}: {:?}", what, bad.map(|r| r.map(|q| q.1)))));
+                    break;
+                }
             }
         }
         o.sig = format!("{}|{}|n{}|{}|{}", if p.hermite { "hermite" } else { "lagrange" }, if complex { "complex" } else { "real" }, p.n, if p.data < 100 { "polynomial-data" } else { "arbitrary-data" }, if tier_all { "all-orders" } else { "rotations" });
